@@ -177,6 +177,22 @@ class Module(object):
 
     def _bind(self, name, rec):
         self.bindings.setdefault(name, []).append(rec)
+        self._seq = getattr(self, "_seq", 0) + 1
+        self._order = getattr(self, "_order", {})
+        self._order[id(rec)] = self._seq
+
+    def binding_before(self, name, rec):
+        """the binding of `name` in force when the module-level statement of `rec` runs (`_f = f` followed by
+        `def f` keeps the earlier f); the last binding when none precedes it"""
+        recs = self.bindings.get(name)
+        if not recs:
+            return None
+        here = self._order.get(id(rec))
+        if here is not None:
+            earlier = [r for r in recs if self._order.get(id(r), 0) < here]
+            if earlier:
+                return earlier[-1]
+        return recs[-1]
 
     def _collect(self, body):
         for st in body:
@@ -399,7 +415,7 @@ class Repo(object):
     # ------------------------------------------------------------------
     # symbol resolution
     # ------------------------------------------------------------------
-    def resolve(self, module, name, _depth=0):
+    def resolve(self, module, name, _depth=0, _rec=None):
         """Resolve a top-level name to FuncRef(def/class/lambda) or an external dotted name.
 
         Returns FuncRef for functions/classes (ural-internal) or FuncRef(module=None,
@@ -409,7 +425,7 @@ class Repo(object):
         """
         if _depth > 12:
             return None
-        rec = module.last_binding(name)
+        rec = _rec if _rec is not None else module.last_binding(name)
         if rec is None:
             return None
         kind = rec[0]
@@ -436,7 +452,7 @@ class Repo(object):
         if kind == "assign":
             val = rec[1]
             if isinstance(val, ast.Name):
-                return self.resolve(module, val.id, _depth + 1)
+                return self.resolve(module, val.id, _depth + 1, _rec=module.binding_before(val.id, rec))
             if isinstance(val, ast.Lambda):
                 return FuncRef(module, val, self.canon(module, name))
             if isinstance(val, ast.Attribute):
